@@ -56,14 +56,28 @@ def run(repo: Repo, chk: Check, thorough: bool = False) -> None:
                   for t in n.targets if isinstance(t, ast.Name)), None)
     pu_assigns = [n for n in url.walk() if isinstance(n, ast.Assign) and isinstance(n.targets[0], ast.Name) and n.targets[0].id == puvar]
     built = [n.value for n in pu_assigns if not (isinstance(n.value, ast.Constant) and n.value.value == 'index.html')]
+    def is_quoted_page_name(x: ast.AST) -> bool:
+        """quote(E) where E is page_object.fullName(), possibly through a local that only ever holds that name plus constant suffixes."""
+        if not (isinstance(x, ast.Call) and call_name(x) == 'quote' and len(x.args) == 1):
+            return False
+        e = x.args[0]
+        if norm(e) == f'{pvar}.fullName()':
+            return True
+        if isinstance(e, ast.Name):
+            sets = [n for n in url.walk() if isinstance(n, (ast.Assign, ast.AugAssign)) and
+                    any(isinstance(t, ast.Name) and t.id == e.id for t in (n.targets if isinstance(n, ast.Assign) else [n.target]))]
+            return bool(sets) and all((isinstance(n, ast.Assign) and norm(n.value) == f'{pvar}.fullName()') or
+                                      (isinstance(n, ast.AugAssign) and isinstance(n.op, ast.Add) and isinstance(n.value, ast.Constant)) for n in sets) and \
+                any(isinstance(n, ast.Assign) for n in sets)
+        return False
     ok = pvar is not None and bool(built)
     for b in built:
         ls = leaves(b)
-        if not all(isinstance(x, ast.Constant) or norm(x) == f'quote({pvar}.fullName())' for x in ls):
+        if not all(isinstance(x, ast.Constant) or is_quoted_page_name(x) for x in ls):
             ok = False
         if not (ls and isinstance(ls[-1], ast.Constant) and str(ls[-1].value).endswith('.html')):
             ok = False
-        if not any(norm(x) == f'quote({pvar}.fullName())' for x in ls):
+        if not any(is_quoted_page_name(x) for x in ls):
             ok = False
     chk.ob('R11.1', f'{DOC}.url :: page part derives from page_object only', ok,
            f"quote({pvar}.fullName()) + '.html'" if ok else 'the page file name is no longer quote(page_object.fullName()) + ".html"', url.loc)
@@ -311,7 +325,29 @@ def run(repo: Repo, chk: Check, thorough: bool = False) -> None:
         chk.ob('R11.4', f'{where} :: link to {target}', ok,
                f'written unconditionally by {files_always.get(target, "the index rule")}' if ok else
                f'{target} is linked from every page but is not in the unconditional page list {sorted(written)}', loc)
-    chk.require('R11.4', 30)
+    # the fixed pages and the object pages share one directory: a fixed name that is also a possible module name (`index`, `classIndex`, ...)
+    # must be kept out of the object-page name space by Documentable.url, else a root module of that name and the summary page are written
+    # to the same file (and a single root called `index` makes the compatibility symlink point at itself: OSError, the run aborts)
+    urlf = repo.func(f'{DOC}.url')
+    reserved: Set[str] = set()
+    for n in urlf.walk():
+        if isinstance(n, ast.Compare) and len(n.ops) == 1 and isinstance(n.ops[0], (ast.In, ast.NotIn)):
+            coll = n.comparators[0]
+            val = coll
+            if isinstance(coll, ast.Name):
+                val = repo.mod('pydoctor.model').assigns.get(coll.id, coll)
+            if isinstance(val, ast.Call) and val.args:
+                val = val.args[0]
+            if isinstance(val, (ast.Tuple, ast.List, ast.Set)):
+                reserved |= {e.value for e in val.elts if isinstance(e, ast.Constant) and isinstance(e.value, str)}
+    for fn, cn in sorted(files_always.items()):
+        stem = fn[:-len('.html')] if fn.endswith('.html') else fn
+        possible_module = all(part.isidentifier() for part in stem.split('.'))
+        okr = (not possible_module) or stem in reserved
+        chk.ob('R11.4', f'{fn} ({cn}) :: cannot be the page of an object', okr,
+               ('not a possible module name' if not possible_module else 'reserved by Documentable.url') if okr else
+               f'`{stem}` is a valid module name: the page of a root module `{stem}` is written to the same file as this summary page', urlf.loc)
+    chk.require('R11.4', 36)
     # static templates are written by prepOutputDirectory
     pod = repo.func(f'{WR}.prepOutputDirectory')
     ok = any(call_name(c) == 'write' for c in calls_in(pod)) and any(isinstance(n, ast.For) and 'templates' in norm(n.iter) for n in pod.walk())
